@@ -1209,6 +1209,7 @@ void GenIdentityMatrix(matrix *m)
 {
   size_t i;
   if(m->row == m->col){
+    MatrixSet(m, 0.f);
     for(i=0; i < m->row; i++){
       m->data[i][i]=1;
     }
